@@ -24,6 +24,7 @@ from models import bitstruct_model  # noqa: E402
 
 _MODELS = {}
 _ENV_CACHE = {}
+_PROFILED = {}
 
 
 def _model(variant):
@@ -57,9 +58,13 @@ def _worker(args):
                       extra_modules=env.get("extra_modules") if isinstance(env, dict) else None)
         lim = h.get("limits", {}).get(tier) or explore.Limits()
         findings = [f for f in load_findings(prop) if f.get("harness") == hname]
+        # the function inventory (evidence) is collected by a profile hook on the first path of a
+        # configuration; a few configurations per harness and worker are enough
+        _PROFILED[hname] = _PROFILED.get(hname, 0) + 1
         res = explore.explore_config(h["run"], cfg, env, limits=lim, findings=findings,
                                      width=cfg.get("W", h.get("width", 80)),
-                                     concolic=h.get("concolic", True))
+                                     concolic=h.get("concolic", True),
+                                     collect_functions=_PROFILED[hname] <= 4)
         res["idx"] = idx
         return res
     except BaseException as e:  # noqa: BLE001
